@@ -190,7 +190,8 @@ func (g *c07Gen) walk(src *mgen.Type, vecN int, vecSc bool, constOnly bool, maxL
 		case form == 5:
 			idx = append(idx, "i64 add (i64 ptrtoint (i32* @anchor to i64), i64 1)")
 			forms = append(forms, "constexpr")
-		case form == 6 && constOnly && k > 0:
+		case form == 6 && constOnly && k > 0 && !strings.Contains(strings.Join(idx, ","), "inrange"):
+			// (LLVM takes the marker on one index of an expression only)
 			idx = append(idx, fmt.Sprintf("inrange i64 %d", rng.Intn(2)))
 			forms = append(forms, "inrange")
 		case form >= 7 && form <= 11:
